@@ -217,7 +217,7 @@ function checkLastResult() {
 }
 function checkLastResult1() {
   var R = LASTRES; LASTRES = undefined;
-  if (R === undefined || R.length > 5000 || Object.getPrototypeOf(R) !== Array.prototype) return "";
+  if (R === undefined || R.length > 64 || Object.getPrototypeOf(R) !== Array.prototype) return "";
   var T = []; T.length = R.length;
   var ks = Object.keys(R);
   for (var i = 0; i < ks.length; i++) { var dsc = Object.getOwnPropertyDescriptor(R, ks[i]); if (!("value" in dsc) || !dsc.writable || !dsc.configurable || !dsc.enumerable) return ""; O_dp(T, ks[i], {value: dsc.value, writable: true, enumerable: true, configurable: true}); }
